@@ -154,6 +154,10 @@ def w_overlap_tables(job):
     for i, a in enumerate(lm):
         for j, b in enumerate(rm):
             o = (a & b).bit_count()
+            if (lvals[i] == '' or rvals[j] == '') and (a != 0 and b != 0):
+                # an empty string that still yields padding q-grams: filter_pair drops it by the "both strings
+                # non-empty" clause, filter_tables sees its tokens; the statement leaves this corner open
+                continue
             want = a != 0 and b != 0 and OPS[op](o, size)
             present = (i, j) in got
             if want:
